@@ -39,7 +39,7 @@ def bounds(tier):
 
 def required_guards(tier):
     return ['height>=3', 'commits', 'aborts', 'reader_checks', 'embedded_to_split',
-            'value_replacements', 'records_written']
+            'value_replacements', 'records_written', 'mutable_commits', 'mutable_aborts']
 
 
 def configs(tier):
@@ -85,6 +85,13 @@ def jobs(tier):
             for kind in F.TREE_KINDS:
                 js.append({'fn': 'script_job', 'weight': 5, 'group': '%s/default-size' % impl,
                            'args': dict(fam=fam, kind=kind, impl=impl)})
+    for fam in ('OO', 'IO', 'LO', 'UO', 'QO'):
+        for impl in F.IMPLS:
+            js.append({'fn': 'mutable_job', 'weight': 5, 'group': '%s/mutable-value' % impl,
+                       'args': dict(fam=fam, kind='BTree', impl=impl, sizes=(2, 2),
+                                    n=4 if tier == 'quick' else 5)})
+            js.append({'fn': 'mutable_job', 'weight': 1, 'group': '%s/mutable-value' % impl,
+                       'args': dict(fam=fam, kind='Bucket', impl=impl, sizes=None, n=3)})
     return js
 
 
@@ -388,6 +395,75 @@ def job(fam, kind, impl, sizes, n, L):
                 guards=dict(guards), outcomes=dict(outcomes), violations=rep.all(), sample=sample)
 
 
+def mutable_job(fam, kind, impl, sizes, n):
+    """Object-valued mappings: a stored MUTABLE value (a list) is changed in place and stored again
+    under its key - the same object, so only the announcement of the change distinguishes the two
+    transactions.  For every state and every present key: commit -> fresh reader sees the change;
+    abort -> the writer shows the committed value again."""
+    ctx = O.Ctx(fam, kind, impl)
+    if sizes:
+        F.set_sizes(fam, *sizes)
+    ex = S.explorer(fam, kind, impl, sizes, n, 'centred', 'C04')
+    states = []
+    ex.state_monitors.append(lambda e, hist, t, model, c: states.append((hist, model.copy())))
+    ex.run()
+    from ..report import Reporter
+    rep = Reporter('C04')
+    guards = collections.Counter()
+    base = dict(mutable=True, fam=fam, kind=kind, impl=impl, sizes=sizes, n=n)
+    transitions = 0
+    sample = None
+
+    def build(hist):
+        w = World(ctx)
+        for op in hist:
+            if op[0] == 'setitem':
+                w.t[op[1]] = [op[2]]
+            else:
+                O.fast_apply(ctx, w.t, op)
+            w.conn.commit()
+        return w
+
+    for hist, model in states:
+        if rep.full:
+            break
+        for k in model.keylist():
+            for action in ('commit', 'abort'):
+                slot.set(('C04mut', fam, kind, impl, sizes, hist, k, action))
+                w = build(hist)
+                transitions += 1
+                sig = dict(fam=fam, kind=kind, impl=impl, site='mutable-value', action=action)
+                case = dict(base, history=[list(o) for o in hist], key=k, action=action)
+                try:
+                    before = list(w.t[k])
+                    v = w.t[k]
+                    v.append('x')
+                    w.t[k] = v          # the same object again
+                    if action == 'commit':
+                        w.conn.commit()
+                        guards['mutable_commits'] += 1
+                        conn, r = M.open_tree(w.storage, w.t._p_oid)
+                        got = r[k]
+                        if got != before + ['x']:
+                            rep.add(dict(sig, cls='reader-value'), case,
+                                    'value of %r changed in place and stored again: reader sees %r, '
+                                    'expected %r' % (k, got, before + ['x']))
+                    else:
+                        w.conn.abort()
+                        guards['mutable_aborts'] += 1
+                        got = w.t[k]
+                        if got != before:
+                            rep.add(dict(sig, cls='abort-value'), case,
+                                    'after abort the writer shows %r for %r, committed %r' % (got, k, before))
+                except Exception as e:      # noqa
+                    rep.add(dict(sig, cls='exc-' + type(e).__name__), case, repr(e))
+                if sample is None and len(hist) >= 2:
+                    sample = case
+    return dict(states=len(states), transitions=transitions, compared=transitions,
+                evaluations=transitions, distinct=len(states), exhaustive=not rep.full,
+                guards=dict(guards), outcomes={}, violations=rep.all(), sample=sample)
+
+
 def script_job(fam, kind, impl):
     """Default node sizes: grow one key per transaction across the embedded -> split boundary,
     replace values, thin back below it; reader verified after every commit."""
@@ -450,6 +526,11 @@ def script_job(fam, kind, impl):
 
 def replay(case):
     fam, kind, impl = case['fam'], case['kind'], case['impl']
+    if case.get('mutable'):
+        r = mutable_job(fam, kind, impl, case.get('sizes') and tuple(case['sizes']), case['n'])
+        vs = [v for v in r['violations'] if v['case'].get('history') == case.get('history')
+              and v['case'].get('key') == case.get('key') and v['case'].get('action') == case.get('action')]
+        return dict(violations=vs)
     if case.get('script'):
         r = script_job(fam, kind, impl)
         return dict(violations=r['violations'])
